@@ -123,7 +123,7 @@ def handle (line : String) : String :=
       else if cmd == "typedok" then
         withTree rest fun tree =>
           let b (x : Bool) := if x then "T" else "F"
-          "OK " ++ b (TokenAdj.wfVal (TokenAdj.mkCtx Gen.Rules.rs_indent []) tree) ++ " " ++
+          "OK " ++ b (TokenAdj.wfVal (TokenAdj.mkCtx Gen.Rules.rs_indent Gen.Defs.definitions []) tree) ++ " " ++
             b (valAll endsOK anyStr tree)
       else if cmd == "unparseR" then
         match Val.parse rest with
